@@ -801,6 +801,8 @@ func (t *Term) write(sb *strings.Builder) {
 			a.write(sb)
 		}
 		sb.WriteString(")")
+	case "constarr":
+		fmt.Fprintf(sb, "((as const %s) %s)", t.S, t.Name)
 	case "extract":
 		fmt.Fprintf(sb, "((_ extract %s) ", t.Name)
 		t.Args[0].write(sb)
